@@ -91,6 +91,121 @@ class sym_float(object, metaclass=_FloatMeta):
         return _real_float(x)
 
 
+class SymText(object):
+    """text whose content depends on symbolic numbers: the result of
+    'fmt' % sym or 'abc' * symint in twin code.  Supports what the anchored
+    code does with such text: concatenation, the fixed-width digit slices of
+    a single %0Nd field, int() of those, and being handed to stubs
+    (strptime)."""
+
+    def __init__(self, kind, fmt=None, args=None, parts=None):
+        self.kind, self.fmt, self.args, self.parts = kind, fmt, args, parts
+
+    def __add__(self, o):
+        return SymText('cat', parts=[self, o])
+
+    def __radd__(self, o):
+        return SymText('cat', parts=[o, self])
+
+    def __mod__(self, o):
+        return SymText('fmt', fmt=self, args=o)
+
+    def _single_int_field(self):
+        import re
+        if self.kind != 'fmt' or not isinstance(self.fmt, str):
+            return None
+        m = re.fullmatch(r'%0?(\d*)d', self.fmt)
+        if not m:
+            return None
+        a = self.args[0] if isinstance(self.args, tuple) else self.args
+        return int(m.group(1) or 0), a
+
+    def __getitem__(self, sl):
+        f = self._single_int_field()
+        if f is None or not isinstance(sl, slice) or sl.step is not None:
+            raise NotImplementedError('slice of symbolic text %r' % (sl,))
+        width, n = f
+        # non-negative n: text is the decimal digits, zero padded to width
+        # (longer if n needs more digits): negative offsets count digits
+        # from the right
+        a, b = sl.start, sl.stop
+        if (a is None or a < 0) and (b is None or b < 0):
+            hi = None if a is None else -a      # digits from the right
+            lo = 0 if b is None else -b
+            return SymDigits(n, lo, hi, width)
+        raise NotImplementedError('slice of symbolic text %r' % (sl,))
+
+    def __repr__(self):
+        return 'SymText(%s)' % self.kind
+
+    def strip(self, *a):
+        return self
+
+    def ljust(self, *a):
+        return self
+
+    def encode(self, *a):
+        return self
+
+
+class SymDigits(object):
+    """decimal digits [lo, hi) counted from the right of a non-negative
+    symbolic integer rendered with %0Nd"""
+
+    def __init__(self, n, lo, hi, width):
+        self.n, self.lo, self.hi, self.width = n, lo, hi, width
+
+    def __symint__(self):
+        n = self.n
+        v = n // (10 ** self.lo)
+        if self.hi is not None:
+            v = v % (10 ** (self.hi - self.lo))
+        return v
+
+
+def sym_mul(a, b):
+    if _real_isinstance(a, str) and _real_isinstance(b, symx.SymInt):
+        return SymText('rep', fmt=a, args=b)
+    if _real_isinstance(b, str) and _real_isinstance(a, symx.SymInt):
+        return SymText('rep', fmt=b, args=a)
+    return a * b
+
+
+def _has_symarg(x):
+    if _real_isinstance(x, (symx.Sym, SymText)):
+        return True
+    if _real_isinstance(x, tuple):
+        return any(_has_symarg(y) for y in x)
+    return False
+
+
+_NUMFMT = __import__('re').compile(r'%[-+0 #]*\d*(\.\d+)?[diouxXeEfFgG]')
+
+
+def sym_mod(a, b):
+    if _real_isinstance(a, str) and _has_symarg(b) and _NUMFMT.search(a):
+        return SymText('fmt', fmt=a, args=b)
+    return a % b
+
+
+class _Rewrite(ast.NodeTransformer):
+    """a * b -> __symmul__(a, b); a % b -> __symmod__(a, b): lets text built
+    from symbolic numbers ('%07d' % n, 'f' * count) stay symbolic instead of
+    forcing a concrete value through str.__mod__/__mul__"""
+
+    def visit_BinOp(self, node):
+        self.generic_visit(node)
+        if isinstance(node.op, ast.Mult):
+            fn = '__symmul__'
+        elif isinstance(node.op, ast.Mod):
+            fn = '__symmod__'
+        else:
+            return node
+        return ast.copy_location(ast.Call(
+            func=ast.Name(id=fn, ctx=ast.Load()),
+            args=[node.left, node.right], keywords=[]), node)
+
+
 _real_eval = eval
 
 
@@ -142,6 +257,8 @@ class TwinSpace(object):
             b['float'] = sym_float
             b['round'] = sym_round
             b['eval'] = sym_eval
+        b['__symmul__'] = sym_mul
+        b['__symmod__'] = sym_mod
         b['__import__'] = self._import
         self.builtins = b
 
@@ -227,7 +344,9 @@ class TwinSpace(object):
         import warnings
         with warnings.catch_warnings():
             warnings.simplefilter('ignore')
-            code = compile(src, path, 'exec')
+            tree = ast.parse(src, path)
+            tree = ast.fix_missing_locations(_Rewrite().visit(tree))
+            code = compile(tree, path, 'exec')
         try:
             exec(code, mod.__dict__)
         except BaseException:
